@@ -44,6 +44,7 @@ import CoreDhcp.Props.GenServeLoop
 import CoreDhcp.Props.GenFileSetup
 import CoreDhcp.Props.GenRangeSetup
 import CoreDhcp.Props.GenMainReg
+import CoreDhcp.Props.Server
 open CoreDhcp
 #print axioms C20_offset_exact
 #print axioms C20_offset_symm
@@ -458,3 +459,16 @@ open CoreDhcp
 #print axioms MAINREG_config_before_sockets_gen
 #print axioms MAINREG_run
 #print axioms MAINREG_list_plugins_is_pure
+#print axioms SERVER_trace_is_main
+#print axioms SERVER_started_run_waits
+#print axioms SERVER_listeners_get_configured_chain
+#print axioms Server.load_fails
+#print axioms Server.plugins_fail
+#print axioms Server.chains_fail
+#print axioms SERVER_bad_config_opens_nothing
+#print axioms SERVER_C13_end_to_end4
+#print axioms SERVER_C13_end_to_end6
+#print axioms Server.optChain4
+#print axioms Server.optChain6
+#print axioms SERVER_builtin_chain_is_sys4
+#print axioms SERVER_builtin_chain_is_sys6
